@@ -225,8 +225,9 @@ theorem inv_step (hist : List Ev) (s : S) (e : Ev) (s' : S) (I : Inv hist s) (h 
   unfold Inv at *
   cases e with
   | connUp sp =>
-    simp only [step, Option.some.injEq] at h; subst h
-    have hs : ∀ (s0 : S), s0.ackQ = s.ackQ → s0.recQ = s.recQ → s0.compQ = s.compQ → s0.fastRel = s.fastRel → s0.stored = s.stored → s0.batch = s.batch →
+    simp only [step] at h
+    have hs : ∀ (s0 : S), s0.ackQ = s.ackQ → s0.recQ = s.recQ → s0.compQ = s.compQ → s0.fastRel = s.fastRel →
+        (∀ p, List.countP (fun x => x.1 == 2 && x.2.1 == p) s0.stored = List.countP (fun x => x.1 == 2 && x.2.1 == p) s.stored) → s0.batch = s.batch →
         InvR (hist ++ [Ev.connUp sp]) (requeue s0) (requeue s0).batch := by
       intro s0 e1 e2 e3 e4 e5 e6
       have hb : (requeue s0).batch = s0.batch := by
@@ -238,11 +239,15 @@ theorem inv_step (hist : List Ev) (s : S) (e : Ev) (s' : S) (I : Inv hist s) (h 
       · intro p; simp [isPuback, isRxPub, mA, qcount]
       · intro p; simp [isPubrec, isRxPub, mR, qcount]
       · intro p; simp [isPubcomp, isGoodRel, mC, qcount, fastN, e4]
-      · intro p; simp only [isDeliver2, isGoodRel, mD, List.countP_append, compItems_count, e3, e6, stored2, e5, fastN, e4, qcount, List.countP_nil, Bool.toNat_false]
+      · intro p; simp only [isDeliver2, isGoodRel, mD, List.countP_append, compItems_count, e3, e6, stored2, e5 p, fastN, e4, qcount, List.countP_nil, Bool.toNat_false]
         omega
-    split
-    · exact hs s rfl rfl rfl rfl rfl rfl
-    · exact hs _ rfl rfl rfl rfl rfl rfl
+    split at h
+    · simp only [Option.some.injEq] at h; subst h; exact hs s rfl rfl rfl rfl (fun _ => rfl) rfl
+    · simp only [Option.some.injEq] at h; subst h
+      refine hs _ rfl rfl rfl rfl ?_ rfl
+      intro p; simp only []; split
+      · simp [List.countP_append]
+      · rfl
   | rxPub qos pid msg =>
     simp only [step] at h
     split at h
@@ -402,6 +407,9 @@ theorem inv_step (hist : List Ev) (s : S) (e : Ev) (s' : S) (I : Inv hist s) (h 
     · intro p; simp [isPubcomp, isGoodRel, mC, fastN, qcount]
     · intro p; simp only [isDeliver2, isGoodRel, mD, fastN, stored2, qcount, List.countP_nil, Bool.toNat_false]; omega
 
+  | subOk =>
+    simp only [step, Option.some.injEq] at h; subst h
+    refine invR_step I ?_ ?_ ?_ ?_ <;> intro p <;> simp [isPuback, isPubrec, isPubcomp, isDeliver2, isRxPub, isGoodRel, mA, mR, mC, mD, fastN, stored2]
 theorem inv_reach' {tr : List Ev} {s : S} (h : run init tr = some s) : Inv tr s :=
   inv_reach Inv inv_init inv_step tr s h
 
